@@ -1,54 +1,168 @@
-(* Correspondence checker for Model/Events.v: runs the model on the harness's op list and
-   compares the whole observable trace with what the real handlers produced. *)
-From Coq Require Import List ZArith Bool.
+(* Correspondence checker for Model/Events.v: runs the model on the harness's op list (with
+   its listener scripts) and compares the whole observable trace with what the real handlers
+   produced; and the property's own trace monitors, evaluated on the implementation's trace
+   alone. *)
+From Coq Require Import List ZArith Bool String.
 From SR Require Import Base.CaseLib Model.Events.
 Import ListNotations.
 Open Scope Z_scope.
 
 Definition item_eqb (a b : item) : bool :=
   match a, b with
+  | IEmit h v, IEmit h' v' => Nat.eqb h h' && (v =? v')
   | ICall l h v, ICall l' h' v' => (l =? l') && Nat.eqb h h' && (v =? v')
+  | ISub l h p, ISub l' h' p' => (l =? l') && Nat.eqb h h' && (p =? p')
+  | IInit g, IInit g' => list_eqb Z.eqb g g'
   | ILog g h v c, ILog g' h' v' c' => (g =? g') && Nat.eqb h h' && (v =? v') && Bool.eqb c c'
   | IRet h c v, IRet h' c' v' => Nat.eqb h h' && Bool.eqb c c' && (v =? v')
   | _, _ => false
   end.
 
-Definition case := (list hkind * list op * list item)%type.
+(* what the harness observed: the trace, or a Go panic *)
+Inductive obs := Obs (tr : list item) | HarnessPanic (msg : string).
 
-Definition model_trace (c : case) : option (list item) :=
+Definition case := (list hkind * list op * obs)%type.
+
+Definition model_fuel : nat := 400.
+
+Definition model_trace (c : case) : res (list item) :=
   let '(kinds, ops, _) := c in
-  match run 400 (init kinds) ops with
-  | Some (w, _) => Some (trace w)
-  | None => None
+  match run model_fuel (init kinds) ops with
+  | Ok (w, _) => Ok (trace w)
+  | Err e => Err e
   end.
 
 Definition check_case (c : case) : bool :=
-  let '(_, _, obs) := c in
-  match model_trace c with
-  | Some tr => list_eqb item_eqb tr obs
-  | None => false
+  let '(_, _, o) := c in
+  match model_trace c, o with
+  | Ok tr, Obs otr => list_eqb item_eqb tr otr
+  | Err BadHandler, HarnessPanic _ => true
+  | _, _ => false
   end.
 
-(* Trace-level monitor of the property itself, evaluated on what the implementation did
-   (independent of the model run): per logger the ILog entries must be exactly one per IRet,
-   in the same order and with the same (handler, value, cancelled) triple; a logger that is
-   registered sees each emission once. *)
-Definition rets (tr : list item) : list (nat * Z * bool) :=
-  flat_map (fun it => match it with IRet h c v => [(h, v, c)] | _ => [] end) tr.
-Definition triple_eqb (a b : nat * Z * bool) : bool :=
-  let '(h, v, c) := a in let '(h', v', c') := b in Nat.eqb h h' && (v =? v') && Bool.eqb c c'.
+(* ------------------------------------------------------------------------------------ *)
+(* Monitor 1 (logging clause), on the implementation's trace alone: every return of Emit is
+   immediately preceded by exactly one log entry per logger registered at that moment (the
+   argument of the latest InitLoggers in the trace), in registration order, carrying the
+   returned event; no log entry occurs anywhere else.  So the log lists all emissions in
+   order of completion, once per registered logger. *)
+Fixpoint log_scan (cur : list Z) (pend : option (list Z * nat * Z * bool)) (tr : list item) : bool :=
+  match tr with
+  | [] => match pend with None => true | Some _ => false end
+  | it :: rest =>
+      match it, pend with
+      | IInit lgs, None => log_scan lgs None rest
+      | ILog lg h v c, None =>
+          match cur with
+          | lg0 :: more => (lg =? lg0) && log_scan cur (Some (more, h, v, c)) rest
+          | [] => false
+          end
+      | ILog lg h v c, Some (lg0 :: more, h', v', c') =>
+          (lg =? lg0) && Nat.eqb h h' && (v =? v') && Bool.eqb c c' &&
+          log_scan cur (Some (more, h', v', c')) rest
+      | IRet h c v, None =>
+          match cur with [] => log_scan cur None rest | _ => false end
+      | IRet h c v, Some ([], h', v', c') =>
+          Nat.eqb h h' && (v =? v') && Bool.eqb c c' && log_scan cur None rest
+      | (IEmit _ _ | ICall _ _ _ | ISub _ _ _), None => log_scan cur None rest
+      | _, _ => false
+      end
+  end.
 
-(* the loggers never change in a case with a single leading OInit: then log = rets *)
-Definition single_init (ops : list op) : option (list Z) :=
-  match ops with
-  | OInit lgs :: rest =>
-      if forallb (fun o => match o with OInit _ => false | _ => true end) rest then Some lgs else None
-  | _ => None
+(* ------------------------------------------------------------------------------------ *)
+(* Monitor 2 (delivery clause), on the implementation's trace alone.  The trace is
+   self-delimiting (IEmit ... IRet), so the emission forest is rebuilt with a stack.  The
+   monitor keeps its own subscription table from the ISub items.  For EVERY emission (also
+   one during which listeners subscribe to its own handler) the listeners called directly by
+   it must be: pairwise distinct, in subscription order (simple) / ascending priority (others;
+   ties unconstrained, as in the property), all subscribed to the handler when it was entered;
+   when it reports no cancellation, ALL of them; when it reports a cancellation, the handler
+   is cancelable, at least one listener ran and every listener not reached has a priority
+   >= the last one called.  Only cancelable handlers report a cancellation. *)
+Record mframe := mkMF {
+  mf_h : nat;
+  mf_expected : list (Z * Z);     (* (id, priority) subscribed when entered *)
+  mf_called : list Z }.           (* ids called so far, latest first *)
+
+Fixpoint assoc_prio (tbl : list (Z * Z)) (lid : Z) : option Z :=
+  match tbl with
+  | [] => None
+  | (i, p) :: r => if i =? lid then Some p else assoc_prio r lid
+  end.
+
+Fixpoint nodupb (l : list Z) : bool :=
+  match l with
+  | [] => true
+  | x :: r => negb (existsb (Z.eqb x) r) && nodupb r
+  end.
+
+Fixpoint ascending (l : list Z) : bool :=
+  match l with
+  | x :: ((y :: _) as r) => (x <=? y) && ascending r
+  | _ => true
+  end.
+Fixpoint strictly_ascending (l : list Z) : bool :=
+  match l with
+  | x :: ((y :: _) as r) => (x <? y) && strictly_ascending r
+  | _ => true
+  end.
+
+Definition frame_delivery_ok (k : hkind) (f : mframe) (c : bool) : bool :=
+  let called := rev (mf_called f) in
+  let prios := map (assoc_prio (mf_expected f)) called in
+  (* everyone called was subscribed when the emission was entered *)
+  forallb (fun o => match o with Some _ => true | None => false end) prios &&
+  nodupb called &&
+  let ps := flat_map (fun o => match o with Some p => [p] | None => [] end) prios in
+  (if kind_eqb k KSimple then strictly_ascending called else ascending ps) &&
+  if c then
+    kind_eqb k KCancel &&
+    match rev ps with
+    | [] => false
+    | last :: _ =>
+        forallb (fun ip => existsb (Z.eqb (fst ip)) called || (last <=? snd ip)) (mf_expected f)
+    end
+  else
+    Nat.eqb (List.length called) (List.length (mf_expected f)).
+
+Fixpoint delivery_scan (kinds : list hkind) (tbl : list (nat * (Z * Z))) (stack : list mframe)
+                       (tr : list item) : bool :=
+  match tr with
+  | [] => match stack with [] => true | _ => false end
+  | it :: rest =>
+      match it with
+      | IEmit h _ =>
+          let expected := flat_map (fun e => if Nat.eqb (fst e) h then [snd e] else []) tbl in
+          delivery_scan kinds tbl (mkMF h expected [] :: stack) rest
+      | ICall lid h _ =>
+          match stack with
+          | f :: more =>
+              Nat.eqb (mf_h f) h &&
+              delivery_scan kinds tbl
+                (mkMF (mf_h f) (mf_expected f) (lid :: mf_called f) :: more) rest
+          | [] => false
+          end
+      | ISub lid h p => delivery_scan kinds (tbl ++ [(h, (lid, p))]) stack rest
+      | IRet h c _ =>
+          match stack with
+          | f :: more =>
+              Nat.eqb (mf_h f) h &&
+              match nth_error kinds h with
+              | None => false
+              | Some k =>
+                  (if c then kind_eqb k KCancel else true) &&
+                  frame_delivery_ok k f c
+              end &&
+              delivery_scan kinds tbl more rest
+          | [] => false
+          end
+      | IInit _ | ILog _ _ _ _ => delivery_scan kinds tbl stack rest
+      end
   end.
 
 Definition monitor_case (c : case) : bool :=
-  let '(_, ops, obs) := c in
-  match single_init ops with
-  | Some lgs => forallb (fun lg => list_eqb triple_eqb (log_of lg obs) (rets obs)) lgs
-  | None => true
+  let '(kinds, _, o) := c in
+  match o with
+  | Obs tr => log_scan [] None tr && delivery_scan kinds [] [] tr
+  | HarnessPanic _ => true     (* no trace to judge; the correspondence decides *)
   end.
